@@ -10,7 +10,7 @@ import sys
 RND = sys.argv[1] if len(sys.argv) > 1 else ""
 SRC = "/tmp/seed" + RND
 RES = "/tmp/mt_results" + RND
-for d in sorted(glob.glob(SRC + "/C*/out/[AB]")):
+for d in sorted(glob.glob(SRC + "/C*/out/[ABC]")):
     pid = d.split("/")[3]
     v = d.split("/")[5]
     res = {}
